@@ -112,19 +112,28 @@ fn add_measurements(
     diagnostics.add_measurement(&SENT_BPS, || client.stats().sent_bps);
     diagnostics.add_measurement(&RECEIVED_BPS, || client.stats().received_bps);
 
+    // The stats are zeroed when the client disconnects, so they can be below the last sample.
     diagnostics.add_measurement(&ENTITIES_CHANGED, || {
-        (stats.entities_changed - last_stats.entities_changed) as f64
+        stats
+            .entities_changed
+            .saturating_sub(last_stats.entities_changed) as f64
     });
     diagnostics.add_measurement(&COMPONENTS_CHANGED, || {
-        (stats.components_changed - last_stats.components_changed) as f64
+        stats
+            .components_changed
+            .saturating_sub(last_stats.components_changed) as f64
     });
-    diagnostics.add_measurement(&MAPPINGS, || (stats.mappings - last_stats.mappings) as f64);
-    diagnostics.add_measurement(&DESPAWNS, || (stats.despawns - last_stats.despawns) as f64);
+    diagnostics.add_measurement(&MAPPINGS, || {
+        stats.mappings.saturating_sub(last_stats.mappings) as f64
+    });
+    diagnostics.add_measurement(&DESPAWNS, || {
+        stats.despawns.saturating_sub(last_stats.despawns) as f64
+    });
     diagnostics.add_measurement(&REPLICATION_MESSAGES, || {
-        (stats.messages - last_stats.messages) as f64
+        stats.messages.saturating_sub(last_stats.messages) as f64
     });
     diagnostics.add_measurement(&REPLICATION_BYTES, || {
-        (stats.bytes - last_stats.bytes) as f64
+        stats.bytes.saturating_sub(last_stats.bytes) as f64
     });
     *last_stats = *stats;
 }
